@@ -109,6 +109,12 @@ KeymapVerdict(e) ==
 TableVerdict(e) ==
   IF ~(CursesKeys \subseteq CurtsiesKeys) THEN "CursesNamedSequenceHasCurtsiesName" ELSE "ok"
 
+\* the tables a fresh interpreter builds under another terminal type (e.term): sequences as byte lists
+TermTablesVerdict(e) ==
+  IF e.k # "ok" THEN "ImportFailsUnderThisTerminalType"
+  ELSE IF \E j \in 1..Len(e.curses) : \A m \in 1..Len(e.curtsies) : e.curtsies[m] # e.curses[j] THEN "CursesNamedSequenceHasCurtsiesName"
+  ELSE "ok"
+
 Judge(e) ==
   CASE e.op = "node" -> V(NodeVerdict(e), NodeExact(e))
     [] e.op = "stream" -> V(StreamVerdict(e), StreamExact(e))
@@ -118,6 +124,7 @@ Judge(e) ==
     [] e.op = "scalar" -> V(ScalarVerdict(e), TRUE)
     [] e.op = "keymap" -> V(KeymapVerdict(e), TRUE)
     [] e.op = "tables" -> V(TableVerdict(e), TRUE)
+    [] e.op = "termtables" -> V(TermTablesVerdict(e), TRUE)
     [] OTHER -> <<"fail", "UnknownOp", "drift">>
 
 Init == i \in 1..Len(Events) /\ v = <<"todo">>
